@@ -391,7 +391,7 @@ def _check_ad_constraint(c, clauses, dag_atoms, lf):
 
 def _strategy():
     progs = st.one_of(gp.programs(), gp.programs(max_preds=3), gp.programs(max_preds=3),
-                      gp.programs(max_preds=2, max_clauses=4))
+                      gp.programs(max_preds=2, max_clauses=4), gp.dense_cycles(), gp.dense_cycles())
     # the flag is drawn first: drawn after a large program it is mostly False (Hypothesis runs out of entropy)
     return st.tuples(st.booleans(), progs).map(lambda t: {"prog": t[1], "propagate": t[0]})
 
